@@ -1297,3 +1297,146 @@ Proof.
     destruct (cand_elems_same_visible r h e Hv Hin) as [e' [Hin' Hve]].
     exists e'. split; [exact Hin'|]. rewrite <- (un_assertion_visible e'), Hve, un_assertion_visible. exact Hu.
 Qed.
+
+(* ---------- the monitors evaluated by the correspondence check hold of the model ---------- *)
+(* (entry point ParseXMLResponse) if the implementation's observable equals the model's, every
+   property monitor is true: a monitor can only fire on a case where implementation and model
+   differ, and then it says which property's conclusion the implementation's answer falsifies *)
+
+Lemma strs_eqb_refl l : strs_eqb l l = true.
+Proof. induction l as [|x l IH]; simpl; [reflexivity|]. unfold seqb. rewrite String.eqb_refl. exact IH. Qed.
+
+Lemma obs_eqb_refl o : obs_eqb o o = true.
+Proof.
+  destruct o; simpl; try reflexivity.
+  - unfold seqb. rewrite !String.eqb_refl, strs_eqb_refl. reflexivity.
+  - apply Z.eqb_refl.
+Qed.
+
+Lemma strs_eqb_eq a b : strs_eqb a b = true -> a = b.
+Proof.
+  revert b. induction a as [|x a IH]; intros [|y b] H; simpl in H; try discriminate; auto.
+  apply andb_prop in H. destruct H as [H1 H2]. apply String.eqb_eq in H1. subst. f_equal. apply IH. exact H2.
+Qed.
+
+Lemma obs_eqb_eq a b : obs_eqb a b = true -> a = b.
+Proof.
+  destruct a, b; simpl; try discriminate; auto.
+  - intros H. apply andb_prop in H. destruct H as [H H3]. apply andb_prop in H. destruct H as [H1 H2].
+    apply String.eqb_eq in H1. apply String.eqb_eq in H2. apply strs_eqb_eq in H3. subst. reflexivity.
+  - intros H. apply Z.eqb_eq in H. subst. reflexivity.
+Qed.
+
+Lemma un_response_named_of r resp : un_response r = Ok resp -> un_response_named "Response" r = Ok resp.
+Proof. unfold un_response. intros H. bind_as H x Hx. bind_as H y Hy. inversion H; subst. exact Hx. Qed.
+
+Lemma returned_contains c r e a :
+  case_resp c = Some r -> In e (cand_elems r) -> un_assertion e = Ok a -> pc_obs c = obs_of (Ok a) ->
+  In a (returned c).
+Proof.
+  intros Hr Hin Hu Ho. unfold returned. rewrite Hr. apply in_flat_map. exists e. split; [exact Hin|].
+  rewrite Hu. unfold matches_obs. rewrite Ho, obs_eqb_refl. left. reflexivity.
+Qed.
+
+Section MonitorsEntry0.
+  Variable c : spcase.
+  Hypothesis E0 : pc_entry c = 0.
+  Hypothesis Hagree : spcase_agree c = true.
+
+  Let Hobs : pc_obs c = obs_of (run c).
+  Proof. symmetry. apply obs_eqb_eq. exact Hagree. Qed.
+
+  Lemma run_entry0 ck : run_ck ck c = parse_xml_response_ck ck (pc_cfg c) (pc_ids c) (pc_now c) (pc_cur c) (pc_doc c).
+  Proof. unfold run_ck. rewrite E0. reflexivity. Qed.
+
+  Lemma case_ar0 : case_ar c = None.
+  Proof. unfold case_ar. rewrite E0. reflexivity. Qed.
+
+  Lemma case_resp0 r : pc_doc c = DRoot r -> case_resp c = Some r.
+  Proof. intros H. unfold case_resp. rewrite E0, H. reflexivity. Qed.
+
+  (* generic argument for the three families *)
+  Lemma family_monitor ckw okr okar oka :
+    weaker ckw all_checks ->
+    (* soundness: what is accepted satisfies the family's conditions *)
+    (forall r resp a, pc_doc c = DRoot r -> un_response r = Ok resp -> run c = Ok a -> okr c resp = true /\ oka c a = true) ->
+    (* completeness: acceptable without the family + the family's conditions => accepted *)
+    (forall r resp a, pc_doc c = DRoot r -> un_response r = Ok resp -> run_ck ckw c = Ok a ->
+                      okr c resp = true -> oka c a = true -> run c = Ok a) ->
+    family_spec ckw okr okar oka c = true.
+  Proof.
+    intros W Hsound Hcomplete. unfold family_spec. rewrite case_ar0. cbn [un_named]. rewrite E0. cbn [Z.eqb andb].
+    rewrite Hobs. destruct (run c) as [a|code|] eqn:ER; cbn [obs_of].
+    - (* accepted *)
+      pose proof ER as ER'. unfold run in ER'. rewrite run_entry0 in ER'. fold parse_xml_response in ER'.
+      apply parse_xml_response_sound in ER'. destruct ER' as [r [resp [e [Hd [Hu [Hin [Hue _]]]]]]].
+      rewrite (case_resp0 r Hd). cbn [un_named]. rewrite (un_response_named_of _ _ Hu).
+      destruct (Hsound r resp a Hd Hu eq_refl) as [H1 H2]. rewrite H1, andb_true_r. cbn [andb].
+      apply existsb_exists. exists a. split; [|exact H2].
+      eapply returned_contains; eauto. apply case_resp0. exact Hd.
+    - (* rejected *)
+      destruct (run_ck ckw c) as [a'| |] eqn:EW; try reflexivity.
+      pose proof EW as EW'. rewrite run_entry0 in EW'.
+      destruct (pc_doc c) as [| |r] eqn:Hd; try discriminate.
+      destruct (accepted_facts _ _ _ _ _ _ _ EW') as [resp [Hu _]].
+      rewrite (case_resp0 r Hd). cbn [un_named]. rewrite (un_response_named_of _ _ Hu). rewrite andb_true_r.
+      destruct (okr c resp) eqn:O1; [|reflexivity]. destruct (oka c a') eqn:O2; [|reflexivity].
+      exfalso. discriminate (Hcomplete r resp a' eq_refl Hu eq_refl O1 O2).
+    - exfalso. unfold run in ER. rewrite run_entry0 in ER. exact (parse_xml_response_not_panic _ _ _ _ _ _ ER).
+  Qed.
+
+  Lemma has_sig0 r : pc_doc c = DRoot r ->
+    case_has_sig c = negb (sigv_eqb (validate_signature (pc_cfg c) r) SAbsent).
+  Proof. intros Hd. unfold case_has_sig, case_need_sig. rewrite (case_resp0 r Hd), case_ar0. reflexivity. Qed.
+
+  Theorem c02_monitor : c02_spec c = true.
+  Proof.
+    unfold c02_spec. apply family_monitor.
+    - repeat split; auto.
+    - intros r resp a Hd Hu ER. unfold run in ER. rewrite run_entry0, Hd in ER. fold parse_xml_response in ER.
+      apply parse_xml_response_sound in ER. destruct ER as [r' [resp' [e [Hd' [Hu' [_ [_ [_ [T1 [T2 _]]]]]]]]]].
+      inversion Hd'; subst r'. rewrite Hu in Hu'. inversion Hu'; subst. auto.
+    - intros r resp a Hd Hu EW O1 O2. unfold run. rewrite run_entry0 in *. rewrite Hd in *.
+      eapply time_family_complete; eauto.
+  Qed.
+
+  Theorem c03_monitor : c03_spec c = true.
+  Proof.
+    unfold c03_spec. apply family_monitor.
+    - repeat split; auto.
+    - intros r resp a Hd Hu ER. unfold run in ER. rewrite run_entry0, Hd in ER. fold parse_xml_response in ER.
+      apply parse_xml_response_sound in ER. destruct ER as [r' [resp' [e [Hd' [Hu' [_ [_ [_ [_ [_ [A1 [A2 _]]]]]]]]]]]].
+      inversion Hd'; subst r'. rewrite Hu in Hu'. inversion Hu'; subst. rewrite (has_sig0 r Hd). auto.
+    - intros r resp a Hd Hu EW O1 O2. unfold run. rewrite run_entry0 in *. rewrite Hd in *.
+      rewrite (has_sig0 r Hd) in O1. eapply addr_family_complete; eauto.
+  Qed.
+
+  Theorem c04_monitor : c04_spec c = true.
+  Proof.
+    unfold c04_spec. apply family_monitor.
+    - repeat split; auto.
+    - intros r resp a Hd Hu ER. unfold run in ER. rewrite run_entry0, Hd in ER. fold parse_xml_response in ER.
+      apply parse_xml_response_sound in ER.
+      destruct ER as [r' [resp' [e [Hd' [Hu' [_ [_ [_ [_ [_ [_ [_ [R1 [R2 _]]]]]]]]]]]]]].
+      inversion Hd'; subst r'. rewrite Hu in Hu'. inversion Hu'; subst. auto.
+    - intros r resp a Hd Hu EW O1 O2. unfold run. rewrite run_entry0 in *. rewrite Hd in *.
+      eapply reqid_family_complete; eauto.
+  Qed.
+
+  Theorem c01_monitor : c01_spec c = true.
+  Proof.
+    unfold c01_spec. rewrite Hobs. destruct (run c) as [a|code|] eqn:ER; cbn [obs_of]; try reflexivity.
+    pose proof ER as ER'. unfold run in ER'. rewrite run_entry0 in ER'. fold parse_xml_response in ER'.
+    apply parse_xml_response_sound in ER'. destruct ER' as [r [resp [e [Hd [Hu [Hin [Hue H]]]]]]].
+    repeat match type of H with _ /\ _ => destruct H as [_ H] end.
+    rewrite (case_resp0 r Hd), case_ar0. apply existsb_exists. exists e. split; [exact Hin|].
+    rewrite Hue. unfold matches_obs. rewrite obs_eqb_refl. cbn [andb].
+    destruct H as [H|H]; rewrite H; rewrite ?orb_true_r; reflexivity.
+  Qed.
+
+  Theorem c09_monitor : c09_spec c = true.
+  Proof.
+    unfold c09_spec. rewrite Hobs. destruct (run c) eqn:ER; try reflexivity.
+    exfalso. unfold run in ER. rewrite run_entry0 in ER. exact (parse_xml_response_not_panic _ _ _ _ _ _ ER).
+  Qed.
+End MonitorsEntry0.
